@@ -22,6 +22,7 @@ RULE = (
     "and send_callback recorded); per task the multiset of invoked handlers must equal the registered set for its "
     "command (catch-alls iff that set is empty), each exactly once, regardless of the position in the history; the "
     "registry lists must keep their length. non-trivial = a history with at least one real task / a non-default input"
+    '. Added: ids that normalise to one presented id, optional arguments left out, one client configured repeatedly, loop pauses inside the jitter band, handlers that fail, registrations between tasks, an on_<command> method for every command. '
 )
 ASSUMPTIONS = [
     "random.*, time.time and time.sleep are scripted; nothing touches the network (dry_run or overridden get_task)",
